@@ -1,5 +1,5 @@
 """C08 spirv enums and bit-masks map numbers and names exactly as declared."""
-import time
+import os, time
 from .tcommon import *
 
 def run_check(tier, seed, replay=None):
@@ -8,6 +8,14 @@ def run_check(tier, seed, replay=None):
     build_harness()
     exhaustive = tier == "thorough"
     n, nbad, events = run_tables(rep, "C08", "c08", seed, ["--exhaustive"] if exhaustive else [])
+    # the decoder's typed requests are the second entry point of every conversion (autogen_decode_operand.rs):
+    # every declared value and its neighbours, every bit, through Decoder::<kind>()
+    from . import c11
+    dtrace = os.path.join(BUILD, "c08_typed.ndjson")
+    vh(["drive-decoder", "--typed-sweep", GRAMMAR, "--out", dtrace])
+    dn, dbad, ddt = c11.validate_decoder_trace(rep, dtrace, "c08_typed")
+    log("typed decoder requests: %d events, %d rejected" % (dn, len(dbad)))
+    n += dn
     kinds = {}
     for e in events:
         kinds[e["ev"]] = kinds.get(e["ev"], 0) + 1
